@@ -4,8 +4,10 @@ BASELINE_OFF = ("cd /repo && env -u LOKY_VERIF /venv/bin/python -m pytest -ra -q
 HOOKS = {"guard": "LOKY_VERIF", "enable": "LOKY_VERIF=1 in the environment of the checked process (no hook commit exists yet)",
          "baseline_off_cmd": BASELINE_OFF, "source_commits": [], "add_only": True}
 ENGINES = [
-    {"name": "E1", "path": "harness/e1.py + harness/simengine/", "serves_properties": ["C01", "C02", "C03", "C04", "C05", "C06", "C07", "C08", "C18", "C19"],
+    {"name": "E1", "path": "harness/e1.py + harness/simengine/", "serves_properties": ["C01", "C02", "C03", "C04", "C05", "C06", "C07", "C08", "C09", "C10", "C18", "C19"],
      "kind_free_text": "deterministic scheduler + simulated kernel running loky's real executor code, in lock-step with the Lean model M1, judged by property oracles"},
+    {"name": "E3-tree", "path": "harness/realproc/tt_engine.py", "serves_properties": ["C12", "C13", "C20"],
+     "kind_free_text": "real loky process trees / executor lifecycles in fresh subprocesses, observed through /proc, /dev/shm and stderr, vs the compiled Lean driver"},
     {"name": "E3", "path": "harness/props/c18_scn.py, harness/props/c02_scn.py", "serves_properties": ["C02", "C06", "C18"],
      "kind_free_text": "real-process scenarios observed through /proc, exit statuses and sentinels"},
     {"name": "E2", "path": "harness/e2.py", "serves_properties": ["C02", "C03", "C06", "C11", "C15", "C16", "C17", "C18", "C19"],
@@ -22,6 +24,38 @@ E1NOTE = ("E1 runs loky's REAL process_executor.py / queues.py (and the stdlib Q
           "with the Lean model M1 (LokyModel/Exec.lean). Assumed: actors are pre-empted only at announced operations; pipes unbounded; pickling "
           "real; cyclic GC not modelled; get_reusable_executor/_resize are executed by E1 but are outside M1. ")
 CLAIMS = {
+    "C09": {
+        "engine": "E1+E2", "design_ref": "§5 C09", "drivers": ["reusable_driver"],
+        "technique": "Lean 4 theorems over a decision model of get_reusable_executor (identity rule, replacement, ids strictly increasing over any history by induction) + the real function run under the deterministic scheduler with each call compared with the model + singleton oracle",
+        "text": ("Theorems (all histories of calls with any max_workers / reuse True,False,'auto' / kill_workers / changed arguments, interleaved with breakages, explicit shutdowns and starts): the returned executor is never one flagged when the call began; the previous instance is returned iff healthy and reuse allows it; otherwise it is shut down first (with the requested kill flag) and a fresh one with the new arguments and a strictly larger id is returned; ids handed out later are larger than all earlier ones; the returned executor has the requested size; max_workers <= 0 is rejected without change. "
+                 "Real code: 10^3 quick histories (1-2 caller threads, time-outs, crashes in one family) of the real reusable_executor.py + process_executor.py under E1; every call of single-thread death-free histories compared with the model (action, ids, sizes); oracles C09 (identity/ids/size/previous workers gone) and C03. Concurrent callers: the whole body runs under one RLock (linearisation exercised by the 2-thread histories, not a theorem). Defects D6 (resize spin on a stale snapshot), D15/D16 (resize spawning onto an executor flagged meanwhile) found and fixed."),
+        "note": STD_NOTE + E1NOTE + "Executors are abstracted to (id, size, kwargs identity, flags); that the inner shutdown(wait=True) returns is C01 (known findings D5, D7).",
+    },
+    "C10": {
+        "engine": "E1+E2", "design_ref": "§5 C10", "drivers": ["reusable_driver"],
+        "technique": "Lean 4 theorems over the _resize plan (sentinels/spawns arithmetic, survivors = min(old,new), size at return) and its final wait (exit condition on the current registry; the pre-fix snapshot loop shown to spin) + real resizes under the deterministic scheduler compared with the plan",
+        "text": ("Theorems (all old/new sizes): a fault-free resize ends with exactly the requested number of workers, min(old,new) of the previous ones kept, growing stops nobody, shrinking starts nobody; the final wait is left iff flagged or every currently registered worker is alive, and a worker that departed during the call does not hold the caller back; the loop it replaced could never be left once a snapshotted worker had exited (D6). "
+                 "Real code: 10^3 quick histories of resizes up and down with work in flight and idle time-outs; every fault-free resize compared with the plan (survivors, registered, alive); oracles C10, C03 (every pre-resize task completes with its own result) and C01 (the call returns). PARTIAL: termination with deaths during the call rests on C01; _resize is outside M1."),
+        "note": STD_NOTE + E1NOTE,
+    },
+    "C12": {
+        "engine": "E3", "design_ref": "§5 C12", "drivers": ["trackertree_driver"],
+        "technique": "Lean 4 invariants over a process-tree / tracker-incarnation / writer-set model, proved by induction over all histories, + step-by-step correspondence on real loky process trees",
+        "text": ("PARTIAL (OS semantics assumed). Theorems (every history of spawn at any depth with both start methods, any order and cause of death, INT/TERM/KILL to any tracker at any time incl. both start-up stages, repeated tracker deaths): spawn hands the parent's live tracker to the child; while no tracker was killed the whole tree holds incarnation 0; writer set = live believers; the sweep is enabled iff no live process holds the pipe (then the tree is gone); a member's SIGKILL only shrinks the writer set; INT/TERM change nothing; a tracker ends only by SIGKILL or its own EOF; after a tracker death the next tracked operation is enabled, launches a live incarnation, warns once. Correspondence: 25 (quick) / 590 (thorough) real trees; after every step tracker identity per member, real writer sets read from /proc, tracked files, leak reports vs the compiled model; oracle from the statement."),
+        "note": STD_NOTE + "OS semantics are assumed, not proved (EOF iff last writer closed, death closes fds, EPIPE iff reader gone, mask/dispositions/pass_fds inherited across exec, atomic <=512-byte writes); races inside ensure_running/_send and dead-tracker zombie reaping are not modelled.",
+    },
+    "C13": {
+        "engine": "E3", "design_ref": "§5 C13", "drivers": ["trackertree_driver"],
+        "technique": "Lean 4 invariants over the tracker-tree model extended with the SemLock name life cycle and tracker registries (induction over all histories, kernel-evaluated necessity witnesses) + real-process scenarios observing /dev/shm",
+        "text": ("PARTIAL (OS semantics assumed). Theorems (every history of create / pickle-to-child / collect / normal, exception, crash exit of any member at any point): the finalizer unlinks before it unregisters; copies and exits never touch the name space; a name leaves only by its owner's finalizer, maybe_unlink->0 or a sweep; namespace_restored - if no tracker was SIGKILLed and no process died between sem_open and REGISTER, once the tree is gone and the trackers have swept no loky semaphore name is left (both hypotheses shown necessary by witnesses); no leak is reported when every owner completed its finalizer. Correspondence: 24 / 397 real scenarios (8 primitive kinds, plain and reusable executors, children with copies) x endings normal exit, uncaught exception, worker crash, broken pool, SIGKILL of the parent; /dev/shm per creating pid, writer sets and leak reports vs the model. Known finding D14 (create-window leak)."),
+        "note": STD_NOTE + "kernel semaphore and pipe semantics assumed; the finalizer-order and create-window windows exist only in the model (real runs hit them only through the forced witness).",
+    },
+    "C20": {
+        "engine": "E3", "design_ref": "§5 C20", "drivers": ["trackertree_driver"],
+        "technique": "Lean 4 theorems over a resource-ledger model of executor lifecycles (balanced after every lifecycle; repeat_n by induction) + real lifecycles run once and k times in fresh processes with fd/thread/child/semaphore counts compared",
+        "text": ("PARTIAL. Ledger theorems (every number of workers): a released executor holds no fd / thread / child / semaphore of its own; every lifecycle (clean, kill, broken with any number of self-inflicted deaths, idle, dropped, unused, resized) ends released; the ledger equals the baseline except for one sentinel fd + one exit-lock semaphore per worker that died by itself, which the next process start clears (witness); children and threads are always balanced; counts after n+1 repetitions of any sequence = counts after one. Correspondence: 9 / 93 real sequences run once and k = 5 / 10 times in a fresh process; deltas at ctor / started / mid / end vs the ledger; oracle: k-vs-1 equality of fds, threads, children incl. zombies, named semaphores. The leak of workers started by _resize on a pool broken meanwhile (D16) was found by the E1 reuse runs and fixed."),
+        "note": STD_NOTE + "Ledger entries are tied to code lines by reading (Ledger.lean); GC modelled as 'held while referenced'; the E1 step-by-step ledger comparison of DESIGN §5 is not built.",
+    },
     "C01": {
         "engine": "E1", "design_ref": "§5 C01, §4", "drivers": ["exec_driver"],
         "technique": "Lean 4: operation-level model M1 of the executor (users, manager, feeder, workers; every lock/pipe/sentinel), kernel-checked witness schedules of the known hangs, lock-ownership invariant for all reachable states; lock-step correspondence of M1 with the real code under a deterministic scheduler + liveness oracle",
